@@ -173,23 +173,31 @@ func c07codec(c *an.Ctx) {
 	}
 	c.Check(rOK, dec, "decoder layout matches the encoder", dec.Pos(), "", sprintf("decodeMessage reads %v, the encoder writes %v: every message read back from disk (overflow, restart) is corrupted", rsegs, want))
 	c.Check(minLen == 10+idLen, dec, "minValidMsgLength == header + id", dec.Pos(), "", sprintf("minValidMsgLength=%d but the fixed part of a record is %d bytes", minLen, 10+idLen))
-	// length guard before slicing
+	// length guard before slicing: every slice of the record sits where `len(b) >= minValidMsgLength` is known
 	guard := false
+	nSlices, nGuarded := 0, 0
 	an.Instrs(dec, func(in ssa.Instruction) {
-		b, ok := in.(*ssa.BinOp)
-		if !ok {
+		sl, ok := in.(*ssa.Slice)
+		if !ok || !isParam(sl.X, dec, 0) {
 			return
 		}
-		if a := lenArgOf(b.X); a != nil && isParam(a, dec, 0) && b.Op == token.LSS {
-			if k, isC := an.ConstInt(b.Y); isC && k == minLen {
-				for _, t := range an.BoolTests(b) {
-					if ok, _, _ := errReturnsAny(dec, []an.Edge{t.True}); ok {
-						guard = true
-					}
-				}
+		nSlices++
+		for _, cmp := range an.CmpsAt(sl.Block()) {
+			oc, ok := cmp.Oriented(func(v ssa.Value) bool { a := lenArgOf(v); return a != nil && isParam(a, dec, 0) })
+			if !ok {
+				continue
+			}
+			k, isC := an.ConstInt(oc.Y)
+			if !isC {
+				continue
+			}
+			if (oc.Op == token.GEQ && k >= minLen) || (oc.Op == token.GTR && k >= minLen-1) || (oc.Op == token.EQL && k >= minLen) {
+				nGuarded++
+				return
 			}
 		}
 	})
+	guard = nSlices > 0 && nGuarded == nSlices
 	c.Check(guard, dec, "short records rejected before slicing", dec.Pos(), "", "decodeMessage does not reject records shorter than minValidMsgLength before slicing them")
 	// diskqueue.New sizes
 	dqNew := c.P.Func("github.com/nsqio/go-diskqueue", "New")
